@@ -14,6 +14,8 @@ def run(tier, seed, limit=0):
     if limit:
         scs = scs[:limit]
     chk.run_scenarios(scs, "Trace_VscRand")
+    chk.run_mc("MC_VscRand", {"MaxLevel": 4 if tier == "quick" else 6}, workers=12, label="A-level API machine on world W-flags")
+    chk.run_mc("B_Soft", {"NSoft": 3}, label="soft fallback loop |= greedy, maximal")
     return chk.finish(LEVEL, "abstract instances (hard subset x three soft subsets of a 2-bit field, class-level and inline) and structured "
                       "programs (conflicting pairs/triples, softs under if/else and implies, jointly conflicting softs, two blocks); for "
                       "every call TLC enumerates Sol(hard) and checks maximality and the existence of a priority-respecting greedy order",
